@@ -3,6 +3,7 @@
 package utils
 
 import (
+	"bufio"
 	"bytes"
 
 	"github.com/dtn7/dtn7-go/pkg/cla/tcpclv4/internal/msgs"
@@ -17,7 +18,7 @@ func H04_NextSegment() {
 	n := verif.Size("n", 1, 3)
 	data := verif.Bytes("data", n)
 	verif.InputLen(8 + n)
-	t := &OutgoingTransfer{Id: 1, startFlag: true, dataStream: bytes.NewReader(data)}
+	t := &OutgoingTransfer{Id: 1, startFlag: true, dataStream: bufio.NewReader(bytes.NewReader(data))}
 	dtm, err := t.NextSegment(mtu)
 	if err != nil {
 		verif.Reach("refused")
